@@ -32,8 +32,8 @@ CHECKS = {
             'exactly one final state and it is spec c t (SKIPPED iff a hard dependency ended FAILED or SKIPPED, else '
             'DONE/FAILED according to the task result; exceptions and malformed returns give FAILED); '
             'schedule_independent (two executions, different worker counts and interleavings, same status map); '
-            'soft_never_blocks. NOT proved: "each task body is executed at most once" (exec_count) is checked by the '
-            'oracle on the real code on every run, not yet a theorem.',
+            'soft_never_blocks; exec_at_most_once (no task body runs twice, in any reachable state) and exec_count_eq_spec '
+            '(at return exactly the non-SKIPPED tasks have run once), by the counting invariant InvE.',
             'Trusted: as C01; the result classification of WorkerThread.check_result is modelled by Outcome '
             '(done / raises / failed / malformed), compared with the code on generated return values.',
             '10 (scheduler)'),
